@@ -310,6 +310,7 @@ def run(chk, prog):
         key = chk.key(R2, '+'.join(names))
         bounded = False
         why = ''
+        why_not = ''
         for p in comp:
             fn = D[p]
             for bb, t in fn.terms():
@@ -335,8 +336,28 @@ def run(chk, prog):
                         gg = cfg(fn)
                         rec_blocks = {b3 for b3, t3 in fn.calls() if callee(t3) in comp}
                         stops = bool(exceeded) and not (gg.reachable(exceeded) & rec_blocks)
-                        if inc and stops:
+                        # every cycle of the recursion must pass an edge that increments the depth: remove the
+                        # incrementing call edges and look for a remaining cycle
+                        plain = {q: set() for q in comp}
+                        for q in comp:
+                            gq = D[q]
+                            for b2, t2 in gq.calls():
+                                c2 = callee(t2)
+                                if c2 in comp:
+                                    incs = False
+                                    for a in t2['args']:
+                                        at = tr.prov(gq, a)
+                                        if any(x.startswith('op:Add') for x in at) and 'const:1' in at and \
+                                                any(x.startswith('arg:') for x in at):
+                                            incs = True
+                                    if not incs:
+                                        plain[q].add(c2)
+                        rest = [c for c in sccs(list(comp), plain) if len(c) > 1 or c[0] in plain.get(c[0], ())]
+                        if inc and stops and not rest:
                             bounded = True
+                        elif inc and stops and rest:
+                            why_not = 'a recursion path that never increments the depth remains: ' + \
+                                ' -> '.join(sorted(D[x].short for x in rest[0]))
                             why = 'depth parameter of %s compared with %s and incremented on the recursive call' % (
                                 fn.short, c.desc[3])
         if not bounded:
@@ -356,8 +377,8 @@ def run(chk, prog):
                     bounded = True
                     why = 'recurses over a serde_json::Value; both documents are parsed by serde_json::from_str ' \
                           '(depth limit 128) in %s' % parsed
-        chk.decide(R2, key, bounded, why, 'decoder recursion %s has no depth bound: a deeply nested document overflows '
-                   'the stack' % names, D[comp[0]].loc(0))
+        chk.decide(R2, key, bounded, why, 'decoder recursion %s has no depth bound%s: a deeply nested document overflows '
+                   'the stack' % (names, (' (' + why_not + ')') if why_not else ''), D[comp[0]].loc(0))
 
     # ---- error channel
     ok = any((im.get('trait') or '').endswith('convert::From') and im['self'].endswith('StoryError')
